@@ -1,5 +1,230 @@
-import Luqum.Model.Transform
+/-
+  C13 — `auto_head_tail` (`luqum/auto_head_tail.py`, model: `Luqum.aht`).
+
+  (i)   the result is equal (`==`) to the input;
+  (ii)  it is the same tree node for node (same paths, same classes, same own attributes, same
+        positions and sizes); a head / tail is either unchanged or was empty and is now one blank;
+        attached names are dropped;
+  (iii) it is idempotent;
+  (iv)  it fails (`IndexError`) exactly on trees containing an `AndOperation` / `OrOperation` /
+        `BoolOperation` without operands;
+  (v)   the printed text only gains blanks.
+
+  Property theorems only; the helper lemmas (and the relation `layRel`, from which (i), (ii), (v)
+  are derived) are in `Luqum.Lemmas.Aht`.
+-/
+import Luqum.Lemmas.Aht
+
 namespace Luqum.Props.C13
-open Luqum
-theorem aht_term (k : TermK) (v : Str) (l : Lay) : aht (.term k v l) = some (.term k v l.noName) := rfl
+open Luqum Luqum.Lemmas.Aht
+
+/-! ### the invariant -/
+
+/-- **C13, invariant.** The result of `auto_head_tail` is related to its input by `layRel`: same
+constructors, same attributes and same children everywhere; at every node the head (tail) is
+unchanged or went from empty to one blank, `pos` / `size` are kept and the attached name is dropped.
+(`layRel` / `LayOk` / `StrOk` are defined in `Luqum.Lemmas.Aht`.) -/
+theorem aht_same_tree {t t' : Tree} (h : aht t = some t') : layRel t' t := aht_layRel t h
+
+/-! ### (i) equality -/
+
+/-- **C13 (i).** `auto_head_tail(t) == t` -/
+theorem aht_eqv {t t' : Tree} (h : aht t = some t') : t'.eqv t = true :=
+  layRel_eqv (aht_layRel t h)
+
+example :
+    aht (.op .and [.term .word ['a'] {}, .unary .not (.term .word ['b'] {}) {}] { name := some ['x'] })
+      = some (.op .and [.term .word ['a'] { tail := [' '] },
+                        .unary .not (.term .word ['b'] { head := [' '] }) { head := [' '] }] {}) := rfl
+
+example :
+    (Tree.op .and [.term .word ['a'] { tail := [' '] },
+                   .unary .not (.term .word ['b'] { head := [' '] }) { head := [' '] }] {}).eqv
+      (.op .and [.term .word ['a'] {}, .unary .not (.term .word ['b'] {}) {}] { name := some ['x'] })
+      = true := rfl
+
+/-! ### (ii) layout -/
+
+/-- **C13 (ii).** Input and result have the same set of paths, and for the nodes `n` (input) and
+`n'` (result) at the same path: the head of `n'` is the head of `n`, or the head of `n` is empty and
+that of `n'` is one blank; the same for the tail; `pos` and `size` are kept; the attached name is
+dropped; the class is the same, and so are the own attributes (the childless, layout-less clones
+coincide). -/
+theorem aht_layout {t t' : Tree} (h : aht t = some t') (p : List Nat) :
+    ((t'.at? p).isSome = (t.at? p).isSome) ∧
+    ∀ n n', t.at? p = some n → t'.at? p = some n' →
+      (n'.head = n.head ∨ (n.head = [] ∧ n'.head = [' '])) ∧
+      (n'.tail = n.tail ∨ (n.tail = [] ∧ n'.tail = [' '])) ∧
+      n'.lay.pos = n.lay.pos ∧ n'.lay.size = n.lay.size ∧ n'.lay.name = none ∧
+      n'.className = n.className ∧
+      n'.cloneItem.setLay {} = n.cloneItem.setLay {} := by
+  have hr := layRel_at p (aht_layRel t h)
+  constructor
+  · split at hr <;> simp_all
+  · intro n n' hn hn'
+    rw [hn, hn'] at hr
+    have o := layRel_lay hr
+    exact ⟨o.head, o.tail, o.pos, o.size, o.name, layRel_className hr, layRel_own hr⟩
+
+/-- in particular every node keeps its number of children -/
+theorem aht_children_length {t t' : Tree} (h : aht t = some t') (p : List Nat) (n n' : Tree)
+    (hn : t.at? p = some n) (hn' : t'.at? p = some n') : n'.children.length = n.children.length := by
+  have hr := layRel_at p (aht_layRel t h)
+  rw [hn', hn] at hr
+  have hc := layRels_getElem? (layRel_children hr)
+  apply Nat.le_antisymm
+  · apply Nat.le_of_not_lt; intro hlt
+    have := hc n.children.length
+    rw [List.getElem?_eq_getElem hlt, List.getElem?_eq_none (Nat.le_refl _)] at this
+    exact this
+  · apply Nat.le_of_not_lt; intro hlt
+    have := hc n'.children.length
+    rw [List.getElem?_eq_getElem hlt, List.getElem?_eq_none (Nat.le_refl _)] at this
+    exact this
+
+example :
+    (aht (.range (.term .word ['1'] { pos := some 1, size := some 1 }) (.term .word ['2'] {}) true false {})).bind
+      (·.at? [0]) = some (.term .word ['1'] { tail := [' '], pos := some 1, size := some 1 }) := rfl
+
+/-! ### (iii) idempotence -/
+
+mutual
+/-- **C13 (iii).** `auto_head_tail` is idempotent: its result is a fixed point (nothing is added to a
+head or tail that is already non-empty, and the result carries no names). -/
+theorem aht_idem : ∀ (t : Tree) {t' : Tree}, aht t = some t' → aht t' = some t'
+  | .term k v l, t', h => by simp [aht] at h; subst h; simp [aht]
+  | .none l, t', h => by simp [aht] at h; subst h; simp [aht]
+  | .field n e l, t', h => by
+    simp [aht] at h; obtain ⟨e', he, rfl⟩ := h; simp [aht, aht_idem e he]
+  | .group k e l, t', h => by
+    simp [aht] at h; obtain ⟨e', he, rfl⟩ := h; simp [aht, aht_idem e he]
+  | .approx k e n l, t', h => by
+    simp [aht] at h; obtain ⟨e', he, rfl⟩ := h; simp [aht, aht_idem e he]
+  | .boost e n l, t', h => by
+    simp [aht] at h; obtain ⟨e', he, rfl⟩ := h; simp [aht, aht_idem e he]
+  | .orange k e i l, t', h => by
+    simp [aht] at h; obtain ⟨e', he, rfl⟩ := h; simp [aht, aht_idem e he]
+  | .unary k e l, t', h => by
+    cases k <;> simp [aht] at h <;> obtain ⟨e', he, rfl⟩ := h
+    · simp [aht, aht_idem e he]
+    · simp [aht, aht_fix_addHead (aht_idem e he)]
+    · simp [aht, aht_idem e he]
+  | .range a b il ih l, t', h => by
+    simp only [aht] at h
+    split at h
+    · next a' b' ha hb =>
+      simp at h; subst h
+      simp [aht, aht_fix_addTail (aht_idem a ha), aht_fix_addHead (aht_idem b hb)]
+    · simp at h
+  | .op k xs l, t', h => by
+    simp only [aht] at h
+    split at h
+    · simp at h
+    · next xs' hx =>
+      have ih := ahtList_idem xs hx
+      split at h
+      · next hk =>
+        simp at h; subst h
+        simp [aht, hk, ahtList_fix_ahtUnk ih, ahtUnk_idem]
+      · next hk =>
+        split at h
+        · simp at h
+        · next he =>
+          simp at h; subst h
+          simp [aht, hk, he, ahtList_fix_ahtOperands ih, ahtOperands_idem, ahtOperands_isEmpty]
+theorem ahtList_idem : ∀ (xs : List Tree) {xs' : List Tree}, ahtList xs = some xs' →
+    ahtList xs' = some xs'
+  | [], xs', h => by simp [ahtList] at h; subst h; rfl
+  | x :: r, xs', h => by
+    simp only [ahtList] at h
+    split at h
+    · next x' r' hx hr =>
+      simp at h; subst h
+      exact (ahtList_cons_fix x' r').2 ⟨aht_idem x hx, ahtList_idem r hr⟩
+    · simp at h
+end
+
+example :
+    aht (.op .unk [.term .word ['a'] { tail := [' '] }, .term .word ['b'] { tail := [' '] },
+                   .range (.term .word ['1'] { tail := [' '] }) (.term .word ['2'] { head := [' '] }) true true {}] {})
+      = some (.op .unk [.term .word ['a'] { tail := [' '] }, .term .word ['b'] { tail := [' '] },
+                   .range (.term .word ['1'] { tail := [' '] }) (.term .word ['2'] { head := [' '] }) true true {}] {}) := rfl
+
+/-! ### (iv) failure -/
+
+mutual
+/-- the tree contains an `AndOperation` / `OrOperation` / `BoolOperation` without operands -/
+def hasEmptyOp : Tree → Bool
+  | .term .. => false
+  | .none _ => false
+  | .field _ e _ => hasEmptyOp e
+  | .group _ e _ => hasEmptyOp e
+  | .approx _ e _ _ => hasEmptyOp e
+  | .boost e _ _ => hasEmptyOp e
+  | .unary _ e _ => hasEmptyOp e
+  | .orange _ e _ _ => hasEmptyOp e
+  | .range a b _ _ _ => hasEmptyOp a || hasEmptyOp b
+  | .op k xs _ => (k != .unk && xs.isEmpty) || hasEmptyOps xs
+def hasEmptyOps : List Tree → Bool
+  | [] => false
+  | x :: r => hasEmptyOp x || hasEmptyOps r
+end
+
+mutual
+theorem aht_isNone : ∀ t : Tree, (aht t).isNone = hasEmptyOp t
+  | .term .. => rfl
+  | .none _ => rfl
+  | .field _ e _ => by simp [aht, hasEmptyOp, ← aht_isNone e]
+  | .group _ e _ => by simp [aht, hasEmptyOp, ← aht_isNone e]
+  | .approx _ e _ _ => by simp [aht, hasEmptyOp, ← aht_isNone e]
+  | .boost e _ _ => by simp [aht, hasEmptyOp, ← aht_isNone e]
+  | .orange _ e _ _ => by simp [aht, hasEmptyOp, ← aht_isNone e]
+  | .unary k e _ => by cases k <;> simp [aht, hasEmptyOp, ← aht_isNone e]
+  | .range a b _ _ _ => by
+    simp only [aht, hasEmptyOp, ← aht_isNone a, ← aht_isNone b]
+    cases aht a <;> cases aht b <;> rfl
+  | .op k xs _ => by
+    simp only [aht, hasEmptyOp, ← ahtList_isNone xs]
+    cases hx : ahtList xs with
+    | none => simp
+    | some xs' =>
+      have he := ahtList_isEmpty hx
+      cases k <;> cases hxe : xs.isEmpty <;> simp_all
+theorem ahtList_isNone : ∀ xs : List Tree, (ahtList xs).isNone = hasEmptyOps xs
+  | [] => rfl
+  | x :: r => by
+    simp only [ahtList, hasEmptyOps, ← aht_isNone x, ← ahtList_isNone r]
+    cases aht x <;> cases ahtList r <;> rfl
+end
+
+/-- **C13 (iv).** `auto_head_tail` raises (`IndexError`) exactly on the trees that contain an
+and / or / bool operation without operands (an `UnknownOperation` without operands is fine). -/
+theorem aht_none_iff (t : Tree) : aht t = none ↔ hasEmptyOp t = true := by
+  rw [← aht_isNone]; cases aht t <;> simp
+
+/-- … so it succeeds on every tree all of whose and / or / bool operations have operands -/
+theorem aht_some_iff (t : Tree) : (∃ t', aht t = some t') ↔ hasEmptyOp t = false := by
+  rw [← aht_isNone]; cases aht t <;> simp
+
+example : aht (.group .group (.op .or [] {}) {}) = none := rfl
+example : hasEmptyOp (.group .group (.op .or [] {}) {}) = true := rfl
+example : aht (.group .group (.op .unk [] {}) {}) = some (.group .group (.op .unk [] {}) {}) := rfl
+
+/-! ### (v) printing -/
+
+/-- **C13 (v).** `auto_head_tail` only inserts blanks into the printed text: with all blanks removed,
+the result prints like the input (with head and tail, in both numeral styles). -/
+theorem aht_print_noblank {t t' : Tree} (h : aht t = some t') (s : NumStyle) :
+    (t'.full s).filter (· ≠ ' ') = (t.full s).filter (· ≠ ' ') :=
+  layRel_full s (· ≠ ' ') (by decide) t' t (aht_layRel t h)
+
+/-- the same for `str(tree)` (without head and tail of the root) -/
+theorem aht_str_noblank {t t' : Tree} (h : aht t = some t') (s : NumStyle) :
+    (t'.body s).filter (· ≠ ' ') = (t.body s).filter (· ≠ ' ') :=
+  layRel_body s (· ≠ ' ') (by decide) (aht_layRel t h)
+
+example :
+    (aht (.op .and [.term .word ['a'] {}, .unary .not (.term .word ['b'] {}) {}] {})).map (·.full .norm)
+      = some "a AND NOT b".toList := by decide
+
 end Luqum.Props.C13
